@@ -62,7 +62,7 @@ prop('C19', ground=['astpass:c19_ownership'], bounded=['robust'],
 
 TECHNIQUE = {
     'C01': 'ground table obligations (every row) + SMT-discharged contracts on encoder helpers + bounded round-trip driver',
-    'C02': 'ground position lemma executed on every table row + SMT-discharged contracts on Segment.add, ElementFinder._parse_structure (one ordered name per child entry) and ElementList.get_ordered_children (slot k is the by-name index of the k-th ordered name)',
+    'C02': 'ground position lemma executed on every table row + contract-based deductive verification of both sides of the position <-> name map: Segment.add, _parse_structure, get_ordered_children, Segment._get_children / Element._get_children (encode: slot k is the by-name index of the k-th name, extra fields by number) and parse_fields / parse_components / parse_subcomponents (decode: the item from piece index+1 is named <prefix>_<index+1>, call-site obligations)',
     'C03': 'SMT-discharged contracts on _remove_trailing, ElementList.get_children (insertion-order view) and the recursive group search _get_segment_reference + forwarding pass over the AST + bounded round-trip driver',
     'C04': 'SMT-discharged contracts on the validator closures, the is_unknown definitions, _is_valid and the reporting tail of validate() + bounded instance/mutation driver',
     'C05': 'SMT-discharged admission contract (_can_add_child), datatype constructors and datatype_factory (ValueError only under STRICT, TOLERANT falls back to ST) + forwarding pass + bounded STRICT/TOLERANT drivers',
